@@ -12,7 +12,8 @@ C13 — growth round 6 (audited on its own: `EXTRA_PROPS` of harness/props/c13.p
   `end_to_end_torch_every_factor` — "translating the second image by the returned shift reproduces the first";
 * the third estimator of the anchored files, `tomography/utils.py: torch_phase_cross_correlation`
   (`Model/RegistrationExt2.lean`): its per-axis centring rule (`centreInt_spec`), integer-shift exactness
-  (`phase_corr_integer_shift`), the sign convention (`phase_corr_sign_convention`) and where it differs from
+  (`phase_corr_integer_shift`), the sign convention (`phase_corr_sign_convention`), swap negation for every pair of
+  images (`phase_corr_swap_negates`) and where it differs from
   the other two estimators (the tie `dim/2` keeps the positive sign: `phase_corr_half_tie`).
 -/
 namespace QuantemModel.Props.C13
@@ -167,6 +168,36 @@ theorem phase_corr_half_tie (n : ℕ) (hn : 0 < n) :
     have := isCentredRep_exact (by omega) h (by push_cast; omega) (by push_cast; omega)
     rw [this]; push_cast; ring
 
+/-- `(-p) mod M = M - p` for `0 < p < M` -/
+theorem wrap_neg_pos {M p : ℕ} (hp : 0 < p) (hpM : p < M) : wrap M (-(p : ℤ)) = M - p := by
+  have h : (M : ℤ) ∣ (((M - p : ℕ) : ℤ) - -(p : ℤ)) := ⟨1, by rw [Nat.cast_sub (le_of_lt hpM)]; ring⟩
+  exact (eq_wrap_of_dvd (by omega) (by omega) _ h).symm
+
+/-- the per-axis centring is odd, except at the tie `2p = dim` (which is its own negative modulo `dim`) -/
+theorem centreInt_neg {p dim : ℕ} (hp : p < dim) (htie : 2 * p ≠ dim) :
+    centreInt (wrap dim (-(p : ℤ))) dim = -centreInt p dim := by
+  rcases Nat.eq_zero_or_pos p with rfl | hpos
+  · simp [wrap_zero, centreInt]
+  · rw [wrap_neg_pos hpos hp]
+    unfold centreInt
+    split <;> split <;> omega
+
+/-- **Swapping the two images negates the result of `torch_phase_cross_correlation`**: for every pair of images
+(any sign of the content) whose `|cc|` has a unique maximum — except exactly at the tie `dim/2`. -/
+theorem phase_corr_swap_negates {M N : ℕ} (hM : 0 < M) (hN : 0 < N) (x y : ℕ → ℕ → ℝ) (p q : ℕ)
+    (hmax : UniqueMaxAt M N (fun s t => Num.abs (corrTable M N x y s t)) p q) :
+    let s := phaseCorr M N (corrTable M N x y)
+    let s' := phaseCorr M N (corrTable M N y x)
+    (2 * p ≠ M → s'.1 = -s.1) ∧ (2 * q ≠ N → s'.2 = -s.2) := by
+  have hmir := uniqueMax_mirror hM hN (c' := fun s t => Num.abs (corrTable M N y x s t))
+    (fun s t => by rw [corrTable_swap hM hN]) hmax
+  have h1 := argmax2_unique hmax
+  have h2 := argmax2_unique hmir
+  dsimp only
+  unfold phaseCorr
+  simp only [h1, h2]
+  exact ⟨fun h => centreInt_neg hmax.1 h, fun h => centreInt_neg hmax.2.1 h⟩
+
 /-! ### non-vacuity -/
 
 /-- `isCentredRep_exact`: a +1 px roll on a 5-pixel axis is returned as `-1` -/
@@ -197,6 +228,19 @@ example : ∀ i j, i < 3 → j < 3 →
   phase_corr_sign_convention (by norm_num) (by norm_num) deltaImg deltaImg_uniquePeak
     (fun i j => by unfold deltaImg; split <;> norm_num) 2 (-1)
 
+example : centreInt (wrap 5 (-(2 : ℤ))) 5 = -centreInt 2 5 := centreInt_neg (by norm_num) (by norm_num)
+
 example : centreInt 3 4 = -1 ∧ centreInt 2 4 = 2 ∧ centreInt 2 5 = 2 ∧ centreInt 3 5 = -2 := by decide
+
+/-- the hypothesis of `phase_corr_swap_negates` is satisfiable: single-pixel image against its copy rolled by `(1, 2)` -/
+example : UniqueMaxAt 3 3 (fun s t => Num.abs (corrTable 3 3 deltaImg (rollImg 3 3 deltaImg 1 2) s t)) (wrap 3 (-1)) (wrap 3 (-2)) := by
+  have hnn : ∀ i j, 0 ≤ deltaImg i j := fun i j => by unfold deltaImg; split <;> norm_num
+  have habs : (fun s t => Num.abs (corrTable 3 3 deltaImg (rollImg 3 3 deltaImg 1 2) s t))
+      = corrTable 3 3 deltaImg (rollImg 3 3 deltaImg 1 2) := by
+    funext s t
+    rw [NumReal.abs_eq, abs_of_nonneg]
+    exact corrTable_nonneg 3 3 deltaImg _ hnn (fun i j => by unfold rollImg; exact hnn _ _) s t
+  rw [habs]
+  exact corrTable_roll_uniqueMax (by norm_num) (by norm_num) deltaImg deltaImg_uniquePeak 1 2
 
 end QuantemModel.Props.C13
